@@ -23,6 +23,7 @@ def run(rep, tier, seed):
     run_contracts(rep, "contracts.aggregate", tier, seed)
     run_contracts(rep, "contracts.aggregate_native", tier, seed)      # bounded companions on real classes / trees
     run_class_init(rep, tier, seed)
+    run_contracts(rep, "contracts.validators", tier, seed)      # constraints declared in code (validate_args overrides)
     # element-level constraints (enumerations, string lengths, integer digits, required): the converters refuse every
     # violating value and accept values exactly at the limit - both routes go through Element.__set__ -> convert
     must = lambda c: any(mode == "must" for _, _, mode in c.raises) or any(i in ("value", "kept-whole", "passthrough") for i, _ in c.ensures)
